@@ -59,3 +59,24 @@ PROPS = {
         ],
     ),
 }
+
+COMPOSE_ASSUMPTIONS = [
+    "inputs restricted to the documented domains (DESIGN.md R2); always-fires timeouts only with functions that block until cancelled and no bulkhead/limiter beneath them",
+    "cases the statement leaves open are discarded or checked weakly and counted: abort on the exhausting attempt (L1), result-abort on an error outcome (L5), breaker grey zone / tainted epochs (L3, L4), OnCacheMiss without a key (L2), scripts that do not terminate",
+]
+COMPOSE_RULE = "rapid-generated scenarios (pool of policy instances, stack with repetition, history of executions over the 8 entry points with scripted outcomes incl. self-cancellation and blocking beneath an always-fires timeout, interleaved with clock advances and standalone operations), compared with the sequential reference model after every step; distinct = hash of (kinds and instance indexes in stack order, action kinds, scripts); non-trivial = "
+
+PROPS.update({
+    "C10": dict(pkg="./props/c10_fallback", tests=[REGRESS(), T("TestFallback", (8, 6000), (16, 100000))],
+        rule=COMPOSE_RULE + "a fallback was applied AND (the failure it handled came from a library-generated error: ExceededError, ErrOpen, ErrFull, rate-limit or timeout error; or the fallback has a HandleResult/HandleIf condition). Profile: fallback outermost, full error universe, all policy kinds inside.",
+        assumptions=COMPOSE_ASSUMPTIONS),
+    "C11": dict(pkg="./props/c11_cache", tests=[REGRESS(), T("TestCache", (8, 5000), (16, 80000))],
+        rule=COMPOSE_RULE + "a cache hit that follows a store made by an earlier step of the same history, or a context key that conflicts with a configured key after something was stored, or an error outcome stored through a matching CacheIf. Profile: cache-heavy pools sharing one instrumented cache, stateful policies inside, histories up to 10 steps with direct cache writes/deletes.",
+        assumptions=COMPOSE_ASSUMPTIONS + ["an empty string key in the context is generated only when no cache policy has a configured key (the statement does not say whether an empty context key counts as supplied)"]),
+    "C16": dict(pkg="./props/c16_events", tests=[REGRESS(), T("TestEvents", (8, 6000), (16, 120000))],
+        rule=COMPOSE_RULE + "at least 3 distinct listener kinds fired and at least one of {abort, exhaustion, rejection, cache hit, fallback, timeout, nested retries}. Every listener of every builder and of the executor is registered into one recorder.",
+        assumptions=COMPOSE_ASSUMPTIONS),
+    "C17": dict(pkg="./props/c17_stats", tests=[REGRESS(), T("TestStats", (8, 6000), (16, 120000))],
+        rule=COMPOSE_RULE + "at least one retry happened and at least one attempt was rejected before reaching the function (breaker, bulkhead or rate limiter). Observation points: function entry, every listener, fallback functions, completion events.",
+        assumptions=COMPOSE_ASSUMPTIONS + ["LastResult/LastError are not compared at observation points where the execution's context is already done (LastError then reports the context error by design)"]),
+})
